@@ -7,7 +7,8 @@ from ..common import Result
 
 PID = 'C03'
 LEVEL = 'exploration'
-RULE = ('bounded-exhaustive operation sequences (length <= 3 quick / <= 4 thorough) over an 18-op alphabet from 5 '
+RULE = ('bounded-exhaustive operation sequences (quick: all of length <= 2 and every second one of length 3, alternating with the '
+        'seed; thorough: all of length <= 4) over a 20-op alphabet from 5 '
         'start shapes with the dtype/byte order rotating through all 26 combinations, plus long random histories '
         '(30-200 steps, 29 op kinds); after every step: live handle, fresh handle and raw files vs NumPy model, '
         'prefix bytes, rejected calls leave state unchanged. Non-trivial = at least one successful state-changing '
@@ -22,7 +23,7 @@ ANCHORS = ['array:Array.append', 'array:Array.iterappend', 'array:Array._append'
            'array:Array.__setitem__', 'array:Array.__getitem__']
 REQUIRED = ['mon.live_handle', 'mon.fresh_handle', 'mon.ifd_array', 'mon.prefix_append',
             'mon.prefix_truncate', 'mon.rejected_calls']
-MIN_NONTRIVIAL = {'quick': 10000, 'thorough': 100000}
+MIN_NONTRIVIAL = {'quick': 8000, 'thorough': 100000}
 MONITORS = {'model', 'ifd_model', 'prefix', 'reject'}
 
 COMBOS = [(t, b) for t in gens.T13 for b in gens.BO]
@@ -36,6 +37,8 @@ def cases(tier, seed):
             for ops in itertools.product(hist_array.ALPHABET, repeat=length):
                 nt, bo = COMBOS[(idx + seed) % len(COMBOS)]
                 idx += 1
+                if tier == 'quick' and length == 3 and (idx + seed) % 2:
+                    continue        # quick: every second length-3 sequence (the other half with the next seed)
                 yield {'start': {'shape': list(start), 'numtype': nt, 'bo': bo},
                        'ops': list(ops), 'vseed': f'{seed}:{idx}'}
     rng = random.Random(f'C03:{seed}:long')
